@@ -3,6 +3,7 @@ import Qsx.Model.Driver
 import Qsx.Model.Num
 import Qsx.Model.BasisFile
 import Qsx.Model.Spec
+import Qsx.Model.Session
 open Qsx
 
 def hexVal (c : Char) : Option Nat :=
@@ -260,6 +261,38 @@ def answer (cx : Ctx) (toks : List String) : Ctx × List String :=
       (cx, ["enc ok", "lines " ++ toString ls.length ++ ls.foldl (fun s l => s ++ " " ++ showLine l) "",
             s!"dec {fmtStat d.1.toArray} {fmtStat d.2.toArray}",
             s!"norm {fmtStat (Qsx.BasisFile.normalizeC fl cl).toArray} {fmtStat (Qsx.BasisFile.normalizeR rl).toArray}"])
+  | "session" :: rest =>
+    -- session <op>* ; ops: addcols newrow addrows:<f> delrows:<bok>:<cok> delcols:<bok> chgkeep chgmatrix loadbasis
+    --                      optprimal:<status>:<fail> optdual:<status>:<fail> exact:<status>:<fail> failed
+    let parseOp (t : String) : Option Qsx.Session.Op :=
+      match t.splitOn ":" with
+      | ["addcols"] => some .addCols
+      | ["newrow"] => some .newRow
+      | ["addrows", f] => some (.addRows (f == "1"))
+      | ["delrows", b, c] => some (.delRows (b == "1") (c == "1"))
+      | ["delcols", b] => some (.delCols (b == "1"))
+      | ["chgkeep"] => some .chgKeepFactor
+      | ["chgmatrix"] => some .chgMatrix
+      | ["loadbasis"] => some .loadBasis
+      | ["optprimal", st, f] => st.toNat?.map fun n => .optPrimal n (f == "1")
+      | ["optdual", st, f] => st.toNat?.map fun n => .optDual n (f == "1")
+      | ["exact", st, f] => st.toNat?.map fun n => .exactSolver n (f == "1")
+      | ["failed"] => some .failedCall
+      | _ => none
+    -- optional first token init:<basis>:<cache>:<factorok>:<qstatus> (state in which the history starts)
+    let (s0, rest) : Qsx.Session.S × List String := match rest with
+      | t :: r => match t.splitOn ":" with
+        | ["init", b, c, f, q] => ({ basis := b == "1", cache := c == "1", factorok := f == "1", qstatus := q.toNat?.getD 0 }, r)
+        | _ => ({}, rest)
+      | [] => ({}, rest)
+    match rest.mapM parseOp with
+    | none => (cx, ["bad-op"])
+    | some ops =>
+      let b2s (b : Bool) := if b then "1" else "0"
+      let (_, out) := ops.foldl (fun (acc : Qsx.Session.S × List String) op =>
+        let s' := Qsx.Session.step acc.1 op
+        (s', acc.2 ++ [s!"s basis={b2s s'.basis} cache={b2s s'.cache} factorok={b2s s'.factorok} qstatus={s'.qstatus}"])) (s0, [])
+      (cx, out)
   | "tointernal" :: rest =>
     let r : Option (List String) := (do
       let L ← pLP cx
